@@ -183,3 +183,83 @@ Proof.
   apply (gap_fame_agreement all s1 s2 g1 g2 o1 o2 ops1 ops2 ID S1 S2 H1 H2 B1 B2 F1 F2 T).
   apply (no_cross_fork_of_universe all _ _ FF (gD_dag _ _ G1) (gD_dag _ _ G2) FA1 FA2).
 Qed.
+
+(** * A decision reached by a node that knows fewer events is the decision of every node that knows more *)
+Theorem fame_stable_statesD P s1 s2 x r v :
+  goodD P s1 -> rinv s1 -> (forall q, 0 <= q <= last_round s1 -> get_peerset s1 q = Some (P q)) ->
+  goodD P s2 -> rinv s2 -> (forall q, 0 <= q <= last_round s2 -> get_peerset s2 q = Some (P q)) ->
+  same_bodies s1 s2 -> no_cross_fork s1 s2 ->
+  (forall y e, get_event s1 y = Some e -> get_event s2 y <> None) ->
+  fame_of s1 x r = Some (Some v) -> fame_of s2 x r = Some (Some v).
+Proof.
+  intros G1 R1' T1 G2 R2' T2 SB NF Sub F1.
+  pose proof (rinv_contig _ R1') as R1. pose proof (rinv_contig _ R2') as R2.
+  destruct (fame_decided_preD P s1 G1 R1 T1 x r v F1) as [Hr1 [e1x H1x]].
+  destruct (get_event s2 x) as [e2x|] eqn:H2x; [|exfalso; apply (Sub x e1x H1x); exact H2x].
+  assert (Incl : forall j, incl (wits s1 j) (wits s2 j)).
+  { intros j w Hw. destruct (wits_storedD P s1 G1 j w Hw) as [e1 He1].
+    destruct (get_event s2 w) as [e2|] eqn:He2; [|exfalso; apply (Sub w e1 He1); exact He2].
+    destruct (memo_agreeD P P s1 s2 G1 G2 SB (fun q _ _ => eq_refl) w e1 e2 He1 He2) as [Er Ew].
+    apply (wits_specD P s1 G1) in Hw. apply (wits_specD P s2 G2). rewrite <- Er, <- Ew. exact Hw. }
+  assert (HJ : last_round s1 <= last_round s2).
+  { pose proof (r_lr _ (proj1 R2')). destruct (Z.le_gt_cases 0 (last_round s1)) as [H0|]; [|lia].
+    assert (Hg : get_round s1 (last_round s1) <> None) by (apply R1; lia).
+    pose proof (cd_tabne _ _ _ (gD_c _ _ G1) _ Hg) as Hne.
+    destruct (wl s1 (last_round s1)) as [|[y w] l] eqn:E; [contradiction|].
+    assert (Hin : In (y, w) (wl s1 (last_round s1))) by (rewrite E; left; reflexivity).
+    destruct (cd_tab _ _ _ (gD_c _ _ G1) _ y w Hin) as [Hr Hw].
+    destruct (cd_rdom _ _ _ (gD_c _ _ G1) y _ Hr) as [_ [e1 [He1 _]]].
+    destruct (get_event s2 y) as [e2|] eqn:He2; [|exfalso; apply (Sub y e1 He1); exact He2].
+    destruct (memo_agreeD P P s1 s2 G1 G2 SB (fun q _ _ => eq_refl) y e1 e2 He1 He2) as [Er Ew]. rewrite Er in Hr. rewrite Ew in Hw.
+    pose proof (cd_tabc _ _ _ (gD_c _ _ G2) y _ w Hr Hw) as Hin2.
+    assert (Hg2 : get_round s2 (last_round s1) <> None) by (apply (wl_in_round _ _ _ _ Hin2)).
+    apply R2 in Hg2. lia. }
+  pose proof (view_ok_reachD P s1 G1 R1 T1 x r e1x Hr1 H1x) as V1.
+  pose proof (view_ok_reachD P s2 G2 R2 T2 x r e2x ltac:(lia) H2x) as V2.
+  pose proof (same_history_reachD P s1 s2 G1 G2 SB NF R1 R2 T1 T2 x r e1x e2x ltac:(lia) H1x H2x) as SH.
+  assert (N1 : forall j, In j (zrange (r + 1) (last_round s1)) -> round_witnesses s1 j <> None).
+  { intros j Hj. apply In_zrange in Hj. apply (round_witnesses_someD P s1 R1 T1). lia. }
+  assert (N2 : forall j, In j (zrange (r + 1) (last_round s2)) -> round_witnesses s2 j <> None).
+  { intros j Hj. apply In_zrange in Hj. apply (round_witnesses_someD P s2 R2 T2). lia. }
+  rewrite (fame_of_as_view s2 x r N2).
+  apply (decision_monotoneD (nD P) r _ _ _ _ _ _ (GWD s1 s2) v V1 V2 SH HJ).
+  - intros j Hj. rewrite (view_witnesses_witsD P s1 T1) by lia. rewrite (view_witnesses_witsD P s2 T2) by lia. apply Incl.
+  - rewrite <- (fame_of_as_view s1 x r N1). exact F1.
+Qed.
+
+(** * Two runs under the distance bound: one assignment P for both *)
+Lemma two_runs_common all s1 s2 g1 g2 o1 o2 ops1 ops2 :
+  ids_determine all -> s1 <> -1 -> s2 <> -1 ->
+  Forall (hop_ok all) ops1 -> Forall (hop_ok all) ops2 ->
+  gap_runb (init_hg s1 g1 o1) ops1 = true -> gap_runb (init_hg s2 g2 o2) ops2 = true ->
+  let st1 := hrun (init_hg s1 g1 o1) ops1 in
+  let st2 := hrun (init_hg s2 g2 o2) ops2 in
+  failed st1 = false -> failed st2 = false -> tables_agree st1 st2 ->
+  exists P,
+    goodD P st1 /\ goodD P st2 /\ rinv st1 /\ rinv st2 /\
+    (forall q, 0 <= q <= last_round st1 -> get_peerset st1 q = Some (P q)) /\
+    (forall q, 0 <= q <= last_round st2 -> get_peerset st2 q = Some (P q)) /\
+    same_bodies st1 st2.
+Proof.
+  intros ID S1 S2 H1 H2 B1 B2 st1 st2 F1 F2 T.
+  destruct (gap_goodD s1 g1 o1 all ops1 S1 ID H1 B1 F1) as [G1 FA1].
+  destruct (gap_goodD s2 g2 o2 all ops2 S2 ID H2 B2 F2) as [G2 FA2].
+  fold st1 in G1, FA1. fold st2 in G2, FA2.
+  pose proof (proj2 (hrun_rtop s1 g1 o1 ops1) F1) as R1. fold st1 in R1.
+  pose proof (proj2 (hrun_rtop s2 g2 o2 ops2) F2) as R2. fold st2 in R2.
+  pose proof (rinv_contig _ R1) as C1. pose proof (rinv_contig _ R2) as C2.
+  pose proof (same_bodies_of_universeD all _ _ st1 st2 ID G1 G2 FA1 FA2) as SB.
+  assert (PS1 : forall q, get_peerset st1 q = Some (psat st1 q)) by (intros q; apply psat_some; exact S1).
+  assert (PS2 : forall q, get_peerset st2 q = Some (psat st2 q)) by (intros q; apply psat_some; exact S2).
+  destruct (Z_le_gt_dec (last_round st1) (last_round st2)) as [Hle|Hgt].
+  - assert (EQ : forall q, get_round st1 q <> None -> psat st1 q = psat st2 q).
+    { intros q Hq. apply (tables_agree_psat st1 st2 T q Hq). apply C2. apply C1 in Hq. lia. }
+    exists (psat st2). repeat (split; [first [assumption|apply (goodD_ext (psat st1) (psat st2) st1 EQ G1)]|]).
+    split; [|split; [intros q _; apply PS2|exact SB]].
+    intros q Hq. rewrite PS1. f_equal. apply EQ. apply C1. exact Hq.
+  - assert (EQ : forall q, get_round st2 q <> None -> psat st2 q = psat st1 q).
+    { intros q Hq. symmetry. apply (tables_agree_psat st1 st2 T q); [|exact Hq]. apply C1. apply C2 in Hq. lia. }
+    exists (psat st1). split; [exact G1|]. split; [apply (goodD_ext (psat st2) (psat st1) st2 EQ G2)|].
+    split; [exact R1|]. split; [exact R2|]. split; [intros q _; apply PS1|]. split; [|exact SB].
+    intros q Hq. rewrite PS2. f_equal. apply EQ. apply C2. exact Hq.
+Qed.
